@@ -136,6 +136,16 @@ type envelopeReader struct {
 	compressionPool *compressionPool
 	bufferPool      *bufferPool
 	readMaxBytes    int
+	// broken is set once the stream has failed or stopped in the middle of an
+	// envelope: nothing that follows can be trusted, and in particular the end
+	// of the underlying body is not the clean end of the stream.
+	broken *Error
+}
+
+// fail records that the stream is broken.
+func (r *envelopeReader) fail(err *Error) *Error {
+	r.broken = err
+	return err
 }
 
 func (r *envelopeReader) Unmarshal(message any) *Error {
@@ -199,6 +209,9 @@ func (r *envelopeReader) Unmarshal(message any) *Error {
 }
 
 func (r *envelopeReader) Read(env *envelope) *Error {
+	if r.broken != nil {
+		return r.broken
+	}
 	prefixes := [5]byte{}
 	// The transport may deliver the prefix in pieces: a single Read can return
 	// fewer than 5 bytes without anything being wrong.
@@ -219,24 +232,34 @@ func (r *envelopeReader) Read(env *envelope) *Error {
 	case err != nil || prefixBytesRead < 5:
 		// Something else has gone wrong - the stream didn't end cleanly.
 		if connectErr, ok := asError(err); ok {
-			return connectErr
+			return r.fail(connectErr)
 		}
-		return errorf(
+		return r.fail(errorf(
 			CodeInvalidArgument,
 			"protocol error: incomplete envelope: %w", err,
-		)
+		))
 	}
 	size := int(binary.BigEndian.Uint32(prefixes[1:5]))
 	if size < 0 {
 		return errorf(CodeInvalidArgument, "message size %d overflowed uint32", size)
 	}
 	if r.readMaxBytes > 0 && size > r.readMaxBytes {
-		_, err := io.CopyN(io.Discard, r.reader, int64(size))
+		discarded, err := io.CopyN(io.Discard, r.reader, int64(size))
 		if err != nil && !errors.Is(err, io.EOF) {
 			if connectErr, ok := asError(err); ok {
-				return connectErr
+				return r.fail(connectErr)
 			}
-			return errorf(CodeUnknown, "read enveloped message: %w", err)
+			return r.fail(errorf(CodeUnknown, "read enveloped message: %w", err))
+		}
+		if discarded < int64(size) {
+			// The body ended inside the oversized message: the stream was cut
+			// short, which is not the same as having ended.
+			return r.fail(errorf(
+				CodeInvalidArgument,
+				"protocol error: promised %d bytes in enveloped message, got %d bytes",
+				size,
+				discarded,
+			))
 		}
 		return errorf(CodeInvalidArgument, "message size %d is larger than configured max %d", size, r.readMaxBytes)
 	}
@@ -251,19 +274,19 @@ func (r *envelopeReader) Read(env *envelope) *Error {
 			bytesRead, err := io.CopyN(env.Data, r.reader, remaining)
 			if err != nil && !errors.Is(err, io.EOF) {
 				if connectErr, ok := asError(err); ok {
-					return connectErr
+					return r.fail(connectErr)
 				}
-				return errorf(CodeUnknown, "read enveloped message: %w", err)
+				return r.fail(errorf(CodeUnknown, "read enveloped message: %w", err))
 			}
 			if errors.Is(err, io.EOF) && bytesRead == 0 {
 				// We've gotten zero-length chunk of data. Message is likely malformed,
 				// don't wait for additional chunks.
-				return errorf(
+				return r.fail(errorf(
 					CodeInvalidArgument,
 					"protocol error: promised %d bytes in enveloped message, got %d bytes",
 					size,
 					int64(size)-remaining,
-				)
+				))
 			}
 			remaining -= bytesRead
 		}
